@@ -434,6 +434,37 @@ def v_entry_points(p, only=None):
     p.verify(f'ClientDataset.{meth}[entry{tag}]', eng, body)
 
 
+def v_view_stateless(p, classes):
+  """'iterating the same view again gives identical batches': no method of a view other than __init__ writes to the view,
+  to the dataset or to any object it did not create itself (OWN frame analysis: every mutation site - those present today and
+  any added later - is on an object created in the same call). A cache of batches, a stored index buffer or a consumed
+  iterator kept on the view would make a second (or a concurrent, or a partial-then-full) iteration differ."""
+  import ast
+  from .. import own
+  from ..extract import parse
+  _, tree = parse(F)
+  for cname in classes:
+    cls_ = [n for n in tree.body if isinstance(n, ast.ClassDef) and n.name == cname]
+    bad, n_methods = [], 0
+    for fn in (cls_[0].body if cls_ else []):
+      if not isinstance(fn, ast.FunctionDef) or fn.name == '__init__':
+        continue
+      n_methods += 1
+      sites, _ = own.analyze_function(fn, f'{cname}.{fn.name}')
+      bad += [f'{F}:{s_.lineno} {s_.fn}: {s_.what.strip()}' for s_ in sites if not s_.ok]
+      # rebinding an attribute of self is a store even when the new value is fresh
+      for n in ast.walk(fn):
+        if isinstance(n, (ast.Assign, ast.AugAssign, ast.AnnAssign)):
+          for t in (n.targets if isinstance(n, ast.Assign) else [n.target]):
+            for x in ast.walk(t):
+              if isinstance(x, ast.Attribute) and isinstance(x.value, ast.Name) and x.value.id == 'self' and \
+                  isinstance(x.ctx, ast.Store):
+                bad.append(f'{F}:{n.lineno} {cname}.{fn.name}: {ast.unparse(n)[:60]}')
+    p.oblige(f'view.stateless:{cname}', [], z3.BoolVal(bool(cls_) and n_methods >= 1 and not bad), kind='frame',
+             fn=f'{cname}.__iter__',
+             detail=f'{cname}: iteration keeps no state on the view and mutates nothing it did not create ({sorted(set(bad))})')
+
+
 def build(p):
   D = 'native/C03.py'
   p.native('_pick_final_batch_size', D, '_pick_final_batch_size', lambda m: dict(
@@ -446,6 +477,7 @@ def build(p):
       num_batch_size_buckets=m['num_batch_size_buckets']))
   p.native('ClientDataset.', D, 'entry')
   v_entry_points(p)
+  v_view_stateless(p, ('BatchView', 'PaddedBatchView'))
   lemma_mono(p)
   euclid_lemma(p)
   v_pick(p)
